@@ -64,6 +64,7 @@ func init() {
 				}
 			}
 			out = append(out, Instance{Scenario: "c15_start", Params: mustJSON(StartParams{Reset: "earliest", Mode: "infinite", PartialFile: true}), Bound: 0})
+			out = append(out, Instance{Scenario: "c12_duringopen", Params: mustJSON(struct{}{}), Bound: b, Shards: 4, Note: "a started session never silently covers only part of the assignment: a stream ending while Open() still waits for another vBucket is re-opened or counted"})
 			for _, w := range []string{"valid", "metadata", "membership", "leaderelection"} {
 				out = append(out, Instance{Scenario: "c15_types", Params: mustJSON(TypeParams{Which: w}), Bound: 0})
 			}
